@@ -263,9 +263,32 @@ func runC13(r *mc.Run) {
 	}{{"-1", world.DERInt64(-1)}, {"256", world.DERInt64(256)}, {"65536", world.DERInt64(65536)}, {"2^63", world.DERInt(two63)},
 		{"20byte", world.DERInt(huge)}, {"0xC8-one-octet", world.DER(0x02, []byte{0xC8})}, {"-129", world.DERInt64(-129)}, {"empty-int", world.DER(0x02)},
 		{"octet", world.DEROctet([]byte{5})}, {"null", world.DER(0x05)}, {"bool", world.DER(0x01, []byte{0xff})}, {"utf8", world.DER(0x0c, []byte("5"))}, {"enum", world.DER(0x0a, []byte{5})}}
+	// values that agree with a legal one in their low 8 / 16 / 32 bits (an INTEGER may be up to 8 octets and more)
+	wideLegal := map[string]*big.Int{}
+	for _, k := range []uint{8, 16, 24, 31, 32, 33, 40, 48, 56, 62} {
+		for _, d := range []int64{0, 7, 0x1234} {
+			v := new(big.Int).Add(new(big.Int).Lsh(big.NewInt(1), k), big.NewInt(d))
+			n := fmt.Sprintf("2^%d+%d", k, d)
+			badInts = append(badInts, struct {
+				name string
+				der  []byte
+			}{n, world.DERInt(v)})
+			wideLegal[n] = v
+		}
+	}
+	for _, k := range []uint{8, 16, 32, 40, 63} {
+		v := new(big.Int).Add(new(big.Int).Neg(new(big.Int).Lsh(big.NewInt(1), k)), big.NewInt(5))
+		badInts = append(badInts, struct {
+			name string
+			der  []byte
+		}{fmt.Sprintf("-2^%d+5", k), world.DERInt(v)})
+	}
 	for i := 0; i < 17; i++ {
 		for _, bi := range badInts {
 			if i == 16 && bi.name == "256" {
+				continue // a legal PCESVN
+			}
+			if v, ok := wideLegal[bi.name]; ok && i == 16 && v.Cmp(big.NewInt(65535)) <= 0 {
 				continue // a legal PCESVN
 			}
 			t := append([][]byte(nil), tcb...)
